@@ -696,4 +696,192 @@ theorem link_call (scn : Scn) (hh : Healthy scn) (s : St) (m : Mon) (used : List
             have hp : (monNext c).posted = m.posted := by simp [monNext, c4, c7, callsIn, postsOf]
             rw [hnc, hf, hp]; exact L.phase }
 
+def isPendTok : Tok → Bool
+  | .pend _ => true
+  | _ => false
+
+theorem fin_toks (scn : Scn) (s : St) : (step scn repaired s .fin).1 = s ∧ ∀ t ∈ (step scn repaired s .fin).2, isPendTok t = true := by
+  refine ⟨rfl, ?_⟩
+  intro t ht
+  simp only [step, List.mem_append, List.mem_map] at ht
+  rcases ht with ht | ⟨k, _, rfl⟩
+  · split at ht
+    · simp at ht; subst ht; rfl
+    · simp at ht
+  · rfl
+
+theorem donesOf_pend (l : List Tok) (h : ∀ t ∈ l, isPendTok t = true) : donesOf l = [] := by
+  induction l with
+  | nil => rfl
+  | cons t ts ih => have := h t (by simp); cases t <;> simp_all [donesOf, isPendTok]
+theorem postsOf_pend (l : List Tok) (h : ∀ t ∈ l, isPendTok t = true) : postsOf l = [] := by
+  induction l with
+  | nil => rfl
+  | cons t ts ih => have := h t (by simp); cases t <;> simp_all [postsOf, isPendTok]
+theorem ntsOf_pend (l : List Tok) (h : ∀ t ∈ l, isPendTok t = true) : ntsOf l = [] := by
+  induction l with
+  | nil => rfl
+  | cons t ts ih => have := h t (by simp); cases t <;> simp_all [ntsOf, isPendTok]
+
+theorem link_fin (scn : Scn) (hh : Healthy scn) (s : St) (m : Mon) (used : List Nat) (L : Link scn s m used) :
+    monCheck (mkCtx scn m .fin (step scn repaired s .fin).2) = none ∧
+    Link scn (step scn repaired s .fin).1 (monNext (mkCtx scn m .fin (step scn repaired s .fin).2)) used := by
+  obtain ⟨hs, hp⟩ := fin_toks scn s
+  rw [hs]
+  generalize (step scn repaired s .fin).2 = toks at hp
+  obtain ⟨c1, c2, c3, c4, c5, c6, c7⟩ := mkCtx_still scn hh m .fin toks L.excused (Or.inr rfl)
+  generalize mkCtx scn m .fin toks = c at c1 c2 c3 c4 c5 c6 c7
+  have hd : donesOf c.toks = [] := by rw [c7]; exact donesOf_pend _ hp
+  have hpo : postsOf c.toks = [] := by rw [c7]; exact postsOf_pend _ hp
+  have hnt : ntsOf c.toks = [] := by rw [c7]; exact ntsOf_pend _ hp
+  have hno : ∀ t, isPendTok t = false → t ∉ c.toks := by
+    intro t ht hm; rw [c7] at hm; rw [hp t hm] at ht; cases ht
+  have hconnOk : c.toks.contains .connOk = false := contains_false.mpr (hno _ rfl)
+  have hconnErr : c.toks.contains .connErr = false := contains_false.mpr (hno _ rfl)
+  have hterm : c.toks.contains .term = false := contains_false.mpr (hno _ rfl)
+  constructor
+  · apply monCheck_none
+    · intro t ht; rw [c7] at ht; have := hp t ht; cases t <;> simp_all [isPendTok, otherClause]
+    · rw [hd]; rfl
+    · exact hno _ rfl
+    · intro h; exact absurd h (hno _ rfl)
+    · exact hno _ rfl
+    · simp [respIdsOf, hpo, checkResps]
+    · rw [c2]; rfl
+    · rw [c4]; exact L.termSeen
+    · rw [notifs_eq, c1, c4, c5, hnt, L.nts]; simp [isSubseq_refl]
+  · have hnc : (monNext c).nComplete = m.nComplete := by simp [monNext, c1]
+    have hf : (monNext c).finished = m.finished := by simp [monNext, c4, hd]
+    have hpp : (monNext c).posted = m.posted := by simp [monNext, c4, callsIn, hpo]
+    have hst : (monNext c).started = m.started := by simp [monNext, c6, c4]
+    exact
+      { excused := by simp [monNext, c3]
+        termSeen := by simp only [monNext, c4, hterm, L.termSeen, Bool.or_self]
+        mbody := by simp [monNext, c4, L.mbody]
+        sbody := L.sbody
+        fed := by simp [monNext, c6, c4, L.fed]
+        ncomp := by rw [hnc]; exact L.ncomp
+        lists := by simp [monNext, c6, c4, L.lists]
+        connRet := by simp only [monNext, c4, hconnOk, hconnErr, L.connRet, Bool.or_false]
+        nts := by rw [hnc]; simp [monNext, c4, hnt, L.nts]
+        answered := by intro id; rw [hnc, ← L.answered id]; simp [monNext, c4, respIdsOf, hpo]
+        started := by rw [hst]; exact L.started
+        posted := by rw [hpp, hst]; exact L.posted
+        finished := by rw [hf, hpp]; exact L.finished
+        pend := by rw [hf, hpp]; exact L.pend
+        nodup := L.nodup
+        rdead := L.rdead
+        wdead := L.wdead
+        closing := L.closing
+        done := L.done
+        closeWait := L.closeWait
+        handed := L.handed
+        fedle := L.fedle
+        phase := by rw [hnc, hf, hpp]; exact L.phase }
+
+/-! ### a whole case -/
+
+theorem run_accepts (scn : Scn) (hh : Healthy scn) (ops : List Op) :
+    ∀ (s : St) (m : Mon) (used : List Nat), Link scn s m used → opsOK used ops = true →
+      runMon scn m (ops.zip (run scn repaired s ops)) = none := by
+  induction ops with
+  | nil => intro s m used _ _; rfl
+  | cons op rest ih =>
+    intro s m used L hok
+    simp only [run, List.zip_cons_cons, runMon, monStep]
+    cases op with
+    | feed n ch =>
+      obtain ⟨h1, h2⟩ := link_feed scn hh s m used L n ch
+      rw [h1]
+      exact ih _ _ used h2 (by simpa [opsOK] using hok)
+    | call k l =>
+      simp only [opsOK, Bool.and_eq_true, decide_eq_true_eq, Bool.not_eq_true'] at hok
+      obtain ⟨⟨hk0, hku⟩, hrest⟩ := hok
+      have hku' : k ∉ used := by simpa using hku
+      obtain ⟨h1, h2⟩ := link_call scn hh s m used L k l hk0 hku'
+      rw [h1]
+      exact ih _ _ (k :: used) h2 hrest
+    | fin =>
+      obtain ⟨h1, h2⟩ := link_fin scn hh s m used L
+      rw [h1]
+      exact ih _ _ used h2 (by simpa [opsOK] using hok)
+    | connect => simp [opsOK] at hok
+    | endStream => simp [opsOK] at hok
+    | close => simp [opsOK] at hok
+
+theorem item_bytes_pos (it : Item) : 0 < it.bytes.length := by
+  unfold Item.bytes
+  rw [renderLines_length]
+  simp only [FEvent.render, List.map_append, List.map_map, List.map_cons, List.map_nil, List.sum_append, List.sum_cons,
+    List.sum_nil, List.length_nil, Nat.zero_add, Nat.add_zero]
+  have := eol_len it.fe.endEol
+  omega
+
+theorem completeN_zero (items : List Item) : completeN items 0 = 0 := by
+  cases items with
+  | nil => rfl
+  | cons it t =>
+    have := item_bytes_pos it
+    simp only [completeN]
+    split
+    · omega
+    · rfl
+
+/-- **monitor_accepts_model_partial.** On every HEALTHY case — a foreign server that writes well-formed lines
+in any spelling, greets with `endpoint` first, accepts every POST, labels its events consistently and sends
+nothing that excuses a shutdown; the harness connects first and then reads (any number of bytes, cut
+anywhere), calls (fresh indices) and finishes in any order — the monitor raises no clause on the
+observations of the model (repaired pump).  With `generated_filter_is_repaired` the same holds for the
+filter regenerated from `mcp/sse.go`. -/
+theorem monitor_accepts_model_partial (scn : Scn) (hh : Healthy scn) (ops : List Op) (hok : opsOK [] ops = true) :
+    runMon scn {} ((Op.connect :: ops).zip (run scn repaired {} (Op.connect :: ops))) = none := by
+  have hstep : step scn repaired {} .connect = ({ phase := .awaitEp, hasBody := true }, [.get]) := by
+    simp [step, hh.get]
+  simp only [run, List.zip_cons_cons, runMon, monStep, hstep]
+  have hpf : ∀ p, (!scn.postOk p) = false := by simp [hh.posts]
+  have hc : monCheck (mkCtx scn {} .connect [.get]) = none := by
+    apply monCheck_none
+    · intro t ht; simp [mkCtx] at ht; subst ht; rfl
+    · rfl
+    · simp [mkCtx]
+    · simp [mkCtx]
+    · simp [mkCtx]
+    · rfl
+    · simp [mkCtx, newMsgs_self, livePrefix, checkLive]
+    · rfl
+    · simp [mkCtx, Ctx.notifs, Scn.msgsUpTo, newMsgs_self, ntsOf, isSubseq]
+  rw [hc]
+  apply run_accepts scn hh ops _ _ [] _ hok
+  have hn0 : (monNext (mkCtx scn {} .connect [.get])).nComplete = 0 := by simp [monNext, mkCtx]
+  have hm0 : scn.msgsUpTo 0 = [] := by simp [Scn.msgsUpTo, newMsgs_self]
+  exact
+    { excused := by simp [monNext, mkCtx, hh.get, postsOf, newMsgs_self]
+      termSeen := by simp [monNext, mkCtx]
+      mbody := by simp [monNext, mkCtx, hh.get]
+      sbody := rfl
+      fed := by simp [monNext, mkCtx]
+      ncomp := by rw [hn0]; exact (completeN_zero _).symm
+      lists := by simp [monNext, mkCtx]
+      connRet := by simp [monNext, mkCtx]
+      nts := by rw [hn0, hm0]; simp [monNext, mkCtx, ntsOf, notifsOf]
+      answered := by intro id; rw [hn0, hm0]; simp [monNext, mkCtx, respIdsOf, postsOf, reqsOf]
+      started := by simp [monNext, mkCtx]
+      posted := by simp [monNext, mkCtx, callsIn, postsOf]
+      finished := by simp [monNext, mkCtx, donesOf]
+      pend := by intro k _; simp [monNext, mkCtx, callsIn, postsOf]
+      nodup := by simp
+      rdead := rfl
+      wdead := rfl
+      closing := rfl
+      done := rfl
+      closeWait := rfl
+      handed := rfl
+      fedle := by simp
+      phase := Or.inl ⟨rfl, by rw [hn0]; exact Nat.zero_le _, rfl, rfl, by simp [monNext, mkCtx, callsIn, postsOf], by simp [monNext, mkCtx, donesOf]⟩ }
+
+/-- the same for the code's filter -/
+theorem monitor_accepts_generated_partial (scn : Scn) (hh : Healthy scn) (ops : List Op) (hok : opsOK [] ops = true) :
+    runMon scn {} ((Op.connect :: ops).zip (run scn generatedFilter {} (Op.connect :: ops))) = none := by
+  rw [generated_filter_is_repaired]; exact monitor_accepts_model_partial scn hh ops hok
+
 end SseClient
